@@ -94,6 +94,9 @@ def expect(s, encoded):
             e["why"] = "unbalanced brackets"
         elif "bracket-in-userinfo" in e["gray"]:
             pass  # brackets shared between userinfo and host: not specified
+        elif authority.count("[") > 1 or authority.count("]") > 1:
+            # a bracket inside the bracketed host / doubled brackets: RFC 3986 has no such IP-literal, the statement is silent
+            e["gray"].append("text-around-brackets")
         elif "text-before-bracket" in notes or "text-after-bracket" in notes:
             e["gray"].append("text-around-brackets")
         elif "bracketed" in notes:
@@ -319,6 +322,22 @@ def recomposition(ctx, u, case):
                 ctx.fail("authority_parts_mismatch", case, f"raw_authority={ra!r} splits into {want4!r}, accessors say {got4!r}", str=s)
                 return
             ctx.count("authority_parts_checked")
+            # ... and they are the same whichever of them is read FIRST on an object that has not split its authority yet
+            # (a cache-free twin per starting accessor: the parser pre-fills all four, every other route fills them lazily)
+            if not any(is_exc(x) for x in got4) and ("@" in ra or "[" in ra):
+                from ..obs import slots, twin_from_slots
+
+                names = ("raw_user", "raw_password", "raw_host", "explicit_port")
+                for k0 in range(4):
+                    t = guarded(twin_from_slots, slots(u))
+                    if is_exc(t):
+                        break
+                    first = guarded(getattr, t, names[k0])
+                    rest = tuple(guarded(getattr, t, n_) for n_ in names)
+                    if first != got4[k0] or rest != got4:
+                        ctx.fail("accessor_order_dependent", case, f"on a fresh copy, reading {names[k0]} first gives {first!r} then {rest!r}; the parsed object says {got4!r}", str=s)
+                        return
+                ctx.count("accessor_orders_checked")
     path = u.raw_path
     q = u.raw_query_string or None
     f = u.raw_fragment or None
@@ -447,7 +466,9 @@ def run(ctx):
     for sch in ("", "http:", "foo:", "HTTP:", "1a:", "a+b-c.d:", ":", "é:"):
         for au in ("", "//", "//h", "//@h", "//:@h", "//u@", "//u:@h:", "//h:80", "//h:080", "//[::1]", "//[::1]:1", "//u:p@[v1.x]:0", "//x[::1]", "//[::1]x:1", "//h:+1", "//h:1_0", "//h: 1", "//h:65536",
                    # brackets that belong to the USERINFO (before the last '@'), host plain or bracketed
-                   "//[::1]@h:80", "//u[v1.x]:pw@h.example:81", "//x:[::]@h", "//[a:b]@h", "//[::1]@[::2]:1", "//[::1]:p@h", "//u@[::1]@h:9"):
+                   "//[::1]@h:80", "//u[v1.x]:pw@h.example:81", "//x:[::]@h", "//[a:b]@h", "//[::1]@[::2]:1", "//[::1]:p@h", "//u@[::1]@h:9",
+                   # more than one '@': the split is at the LAST one, the password starts at the first ':' of everything before it
+                   "//a@b:c@h", "//user@example.com:secret@h:21", "//a@b@c:d@h", "//a:b@c:d@h:1", "//@a:b@h", "//a@:b@h"):
             for pa in ("", "/", "/a", "a", "//a", "/./a/../b", "a:b", "%2e/x"):
                 for qf in ("", "?", "#", "?#", "?a#b", "#a?b", "??", "##"):
                     structured.append(sch + au + pa + qf)
